@@ -13,7 +13,7 @@ torch.allclose on independently computed densifications are a third voice (repor
 Symmetry and representation-insensitivity instances (clone, freshen, to_dense-then-wrap, default_to, a re-patterned
 copy) are built with the library and go through the same check function.
 """
-import itertools, math, random, json, traceback
+import itertools, math, random, json, traceback, warnings
 from fractions import Fraction
 from harness.core import *
 from harness.props import _c06_util as U
@@ -183,13 +183,20 @@ def spec_of(obj, world):
     dt = {torch.float64: "f64", torch.float32: "f32", torch.bool: "bool"}[obj.physical.dtype]
     return dict(vaxes=vax, paxes=pax, default=obj.default, dtype=dt, values=obj.physical.reshape(-1).tolist())
 
+LAST_WARN = [False]
+
 def call(f):
-    try:
-        return 1 if f() else 0
-    except AssertionError:
-        return 2
-    except Exception as ex:
-        return (3, repr(ex))
+    """0 False / 1 True / 2 AssertionError / (3, repr) other exception; remembers whether unify warned"""
+    with warnings.catch_warnings(record=True) as wl:
+        warnings.simplefilter("always")
+        try:
+            r = 1 if f() else 0
+        except AssertionError:
+            r = 2
+        except Exception as ex:
+            r = (3, repr(ex))
+    LAST_WARN[0] = any("index type mismatch" in str(w.message) for w in wl)
+    return r
 
 def third_voice(mode, st, su, rtol, atol, equal_nan):
     import torch
@@ -205,28 +212,26 @@ def third_voice(mode, st, su, rtol, atol, equal_nan):
 class Stream:
     """collects check-function values and their descriptions"""
     def __init__(self):
-        self.vals = []; self.desc = []; self.voice = dict(compared=0, disagreements=0, samples=[])
+        self.vals = []; self.desc = []; self.tv = []
         self.hist = {}
     def bump(self, *keys):
         for k in keys: self.hist[k] = self.hist.get(k, 0) + 1
     def add(self, mode, rtol, atol, equal_nan, st, su, impl, info, violations):
         desc = dict(mode=["equal", "allclose", "equal_default", "allclose_default"][mode], rtol=rtol, atol=atol,
-                    equal_nan=equal_nan, t=slim(st), u=slim(su) if mode < 2 else None, info=info)
+                    equal_nan=equal_nan, t=slim(st), u=slim(su) if mode < 2 else None, info=info, warned=LAST_WARN[0])
         if isinstance(impl, tuple):
             violations.append(Violation("%s raised %s" % (desc["mode"], impl[1]), case=desc, corr="corr:c13_check",
                                         call="PatternedTensor.%s" % desc["mode"]))
             return
         self.vals.append((mode, Fraction(rtol), Fraction(atol), bool(equal_nan), wire_tensor(st), wire_tensor(su), impl))
         self.desc.append(desc)
+        tv = None
         if impl in (0, 1):
             try:
                 tv = third_voice(mode, st, su, rtol, atol, equal_nan)
-                self.voice["compared"] += 1
-                if tv != bool(impl):
-                    self.voice["disagreements"] += 1
-                    if len(self.voice["samples"]) < 5: self.voice["samples"].append(dict(case=desc, torch=tv, impl=bool(impl)))
             except Exception as ex:
-                self.voice.setdefault("errors", []).append(repr(ex)[:200])
+                tv = "error: " + repr(ex)[:200]
+        self.tv.append(tv)
 
 def slim(s):
     return dict(vaxes=s["vaxes"], paxes=s["paxes"], default=s["default"], dtype=s["dtype"], values=s["values"])
@@ -313,6 +318,24 @@ def default_cases(S, rng, st, violations):
     if s["dtype"] != "bool":
         rtol, atol = rng.choice(TOLS)
         S.add(3, rtol, atol, True, s, s, call(lambda: t.allclose_default(rtol=rtol, atol=atol)), info, violations)
+
+# ---------------------------------------------------------------------------- mixed index types (outside the typed domain)
+def mixed_pairs(rng, n):
+    """pairs whose operands are typed by DIFFERENT sum decompositions of some dimension: the library warns
+    "index type mismatch" and treats the supports as disjoint"""
+    out = []
+    is_sum = lambda t: t[0] == "sum"
+    while len(out) < n:
+        shp = rng.choice([(3,), (3,), (2, 3), (3, 3), (4,), (2, 2)])
+        tt = [rng.choice(SIZE_TYPES[k]) for k in shp]; tu = list(tt)
+        cand = [i for i, k in enumerate(shp) if sum(1 for t in SIZE_TYPES[k] if is_sum(t)) >= 2]
+        if not cand: continue
+        i = rng.choice(cand)
+        sums = [t for t in SIZE_TYPES[shp[i]] if is_sum(t)]
+        tt[i], tu[i] = rng.sample(sums, 2)
+        vt, _ = U.gen_pattern(tt, rng, p_phys=0.15); vu, _ = U.gen_pattern(tu, rng, U.Pool(30), p_phys=0.15)
+        out.append((tt, vt, vu))
+    return out
 
 # ---------------------------------------------------------------------------- MultiTensor.allclose
 def multi_cases(rng, uni, n, violations):
@@ -415,6 +438,14 @@ def run(tier, seed):
             except Exception as ex:
                 violations.append(Violation("harness: pair raised %r" % (ex,), case=dict(vt=vt, vu=vu, variant=variant),
                                             observed=traceback.format_exc()[-1500:], corr="harness", failing_input_found=False))
+    n_typed_vals = len(S.vals)
+    for tt, vt, vu in mixed_pairs(rng, 120 if quick else 1500):
+        try:
+            st, su, info = make_pair(rng, tt, vt, vu, rng.choice(VARIANTS))
+            run_pair(S, rng, st, su, dict(info, mixed=True), violations, reps=False)
+        except Exception as ex:
+            violations.append(Violation("harness: mixed pair raised %r" % (ex,), case=dict(vt=vt, vu=vu),
+                                        observed=traceback.format_exc()[-1500:], corr="harness", failing_input_found=False))
     mvals, mdescs = multi_cases(rng, uni, 250 if quick else 4000, violations)
     # ---- model side
     from concurrent.futures import ThreadPoolExecutor
@@ -425,8 +456,26 @@ def run(tier, seed):
     for v, c in zip(tvals, tcodes):
         if c: raise AssertionError("C13 harness: generator produced an ill-typed pattern (code %d): %r" % (c, v))
     verd = {}; truth = {"True": 0, "False": 0}; premise_false = []
+    mixed = dict(cases=0, unify_warned=0, wrong_answers=0, premise_false=0)
     for v, d, c in zip(S.vals, S.desc, codes):
-        verd[c] = verd.get(c, 0) + 1
+        is_mixed = bool(d["info"].get("mixed"))
+        if is_mixed:
+            mixed["cases"] += 1; mixed["unify_warned"] += bool(d["warned"]); mixed["premise_false"] += (c == 30)
+            if c in (1, 2) and d["warned"]:
+                # outside the typed domain; the library itself warned about the index types
+                mixed["wrong_answers"] += 1
+                violations.append(Violation("%s on operands typed by different sum decompositions of a dimension: %s (the library warned 'index type mismatch' and went on)" % (d["mode"], CMP_CODES[c]),
+                                            case=d, observed=v[-1], expected=0 if c == 1 else 1,
+                                            oracle="dense_pointwise (pointwise comparison of the dense denotations, exact)",
+                                            corr="C13_equal_mixed_types_refuted (the premise compare_pre_b is false for the pair)",
+                                            call="PatternedTensor.%s" % d["mode"], finding_key="mixed_index_types_unify_warns"))
+                continue
+            if c == 30: continue
+        else:
+            verd[c] = verd.get(c, 0) + 1
+            if d["warned"]:
+                violations.append(Violation("unify warned 'index type mismatch' on a typed pair", case=d, corr="corr:c13_check (typed stream)",
+                                            failing_input_found=False, call="PatternedTensor.%s" % d["mode"]))
         if c == 30:
             # answer right, model agrees, but the boolean premise of C13_equal_correct is false for the pair
             if len(premise_false) < 5: premise_false.append(d)
@@ -449,9 +498,20 @@ def run(tier, seed):
                                     oracle="mt_spec (cell by cell, absent block = zero)" if oracle else None,
                                     corr="C13_multi_absent_is_zero; corr:c13_multi_check", failing_input_found=oracle,
                                     call="MultiTensor.allclose"))
-    if S.voice["disagreements"]:
-        # the third voice does not decide; a disagreement with an answer the Coq oracle accepted points at the harness
-        print("note: torch third voice disagrees with %d accepted answers (see evidence)" % S.voice["disagreements"])
+    # the third voice (torch on independently computed densifications) does not decide; it is tallied against the Coq oracle
+    voice = dict(compared=0, agrees_with_coq_oracle=0, disagrees_with_coq_oracle=0, errors=0, samples=[])
+    for v, d, c, tv in zip(S.vals, S.desc, codes, S.tv):
+        if tv is None: continue
+        if isinstance(tv, str): voice["errors"] += 1; continue
+        voice["compared"] += 1
+        truth_coq = bool(v[-1]) if c in (0, 30) else (not bool(v[-1])) if c in (1, 2) else None
+        if truth_coq is None: continue
+        if tv == truth_coq: voice["agrees_with_coq_oracle"] += 1
+        else:
+            voice["disagrees_with_coq_oracle"] += 1
+            if len(voice["samples"]) < 5: voice["samples"].append(dict(case=d, torch=tv, coq_oracle=truth_coq))
+    if voice["disagrees_with_coq_oracle"]:
+        print("note: torch.equal/allclose on the densifications disagrees with the Coq oracle on %d cases (see evidence; not deciding)" % voice["disagrees_with_coq_oracle"])
     samples = [dict(S.desc[i], impl=S.vals[i][-1]) for i in sorted(rng.sample(range(len(S.desc)), min(4, len(S.desc))))]
     cov = dict(evaluations=len(S.vals) + len(mvals), distinct_nontrivial=len(nontrivial),
                rule="distinct (pattern of t, pattern of u) pairs in which at least one pattern is not a plain dense pattern (a non-physical axis or a repeated physical axis)",
@@ -460,8 +520,9 @@ def run(tier, seed):
                histogram=S.hist, verdicts=verd, impl_answers_accepted=truth,
                theorem_premise=dict(evaluated_on="every equal/allclose case of equal shapes (compare_pre_b inside c13_check)",
                                     false_on=verd.get(30, 0), samples=premise_false),
+               mixed_index_types_stream=mixed,
                multi=dict(cases=len(mvals), verdicts=mverd, impl_answers={str(k): sum(1 for v in mvals if v[-1] == k) for k in (0, 1, 2)}),
-               third_voice_torch=S.voice, kernel_reevaluated=k1 + k2 + k3, samples=samples, open_items=OPEN_ITEMS)
+               third_voice_torch=voice, kernel_reevaluated=k1 + k2 + k3, samples=samples, open_items=OPEN_ITEMS)
     return cov, violations
 
 OPEN_ITEMS = [
